@@ -9,13 +9,16 @@
    reaping, and the state of the TLS library.  Those are exercised by the stress
    part of the check only. *)
 From Coq Require Import ZArith List Bool.
-From PG Require Import Lib.Str Model.Cache Model.Conc Proofs.C14Facts Gen.Globals Proofs.C14Shared.
+From PG Require Import Lib.Str Model.Cache Model.Conc Proofs.C14Facts Gen.Globals Gen.ServerSite Proofs.C14Shared.
 Import ListNotations.
 
 (* T: what the source shares between workers (Gen/Globals.v, regenerated from pygopherd/
    on every run) is what the model shares: every `global` statement concerns one of the
    six lazily initialised tables or start-up-only state, containers are mutated at
-   start-up only, and the tables start as None and only ever receive configuration values. *)
+   start-up only, and the tables start as None and only ever receive configuration values; nothing writes the process
+   environment / working directory after start-up (no os.environ alias, store, putenv ...); pygopherd/server.py
+   (Gen/ServerSite.v) defines exactly the known socketserver hooks and assigns server-object attributes only at
+   construction/bind time (plus the master's active_children). *)
 Theorem C14_shared_state_is_modelled : shared_state_check = true.
 Proof. exact shared_state_covered. Qed.
 Print Assumptions C14_shared_state_is_modelled.
